@@ -138,7 +138,8 @@ Inductive aattr_value :=
 | AvVStr (b : list N) | AvUInt (x : N) | AvInt (x : N) | AvF32 (bits : N) | AvF64 (bits : N)
 | AvOStr (b : list N) | AvBStr (b : list N) | AvTime (x : N) | AvList (b : list N).
 
-(* i16 as i32 as u32 *)
+(* i8 as i32 as u32, i16 as i32 as u32 *)
+Definition asext8 (x : N) : N := if x <? 128 then x else x + 4294967040.
 Definition asext16 (x : N) : N := if x <? 32768 then x else x + 4294901760.
 
 Definition aread_n (w : N) (l : list N) : ares (N * list N) aattr_err :=
@@ -163,8 +164,10 @@ Definition aattr_payload (ty len : N) (l2 : list N) : ares (aattr_value * list N
       match aread_n len l2 with AOk (x, r) => AOk (AvUInt x, r) | AErr e => AErr e end
     else AErr (AAIntLength len)
   else if ty =? attr_signed_int then
-    if (len =? 1) || (len =? 4) then
-      match aread_n len l2 with AOk (x, r) => AOk (AvInt x, r) | AErr e => AErr e end
+    if len =? 1 then
+      match aread_n 1 l2 with AOk (x, r) => AOk (AvInt (asext8 x), r) | AErr e => AErr e end
+    else if len =? 4 then
+      match aread_n 4 l2 with AOk (x, r) => AOk (AvInt x, r) | AErr e => AErr e end
     else if len =? 2 then
       match aread_n 2 l2 with AOk (x, r) => AOk (AvInt (asext16 x), r) | AErr e => AErr e end
     else AErr (AAIntLength len)
